@@ -335,14 +335,17 @@ func c03(c *Ctx) {
 	}
 	r.Check(okRet, "C03.R5", shortName(tb)+" returns the address it wrote", p.Pos(tb.Pos()), "result = placeholder address", "the trampoline builder returns an address other than the one the relocated code was written to")
 	gt := guardType(p)
-	pt := p.NamedType("internal/patch", "patch")
-	if gt != nil && pt != nil {
-		gf := structField(gt, "fixOriginPtr")
+	pt := p.patchRoles().Patch
+	if gt != nil && pt != nil && p.patchRoles().GFixOrigin != nil && p.patchRoles().PFixOrigin != nil {
+		gf := p.patchRoles().GFixOrigin
 		for _, fs := range storesToField(p.Funcs, func(fv *types.Var, _ ssa.Value) bool { return fv == gf }) {
-			ok := allAtoms(origins(fs.Store.Val), func(a Atom) bool { return a.Kind == "field" && strings.HasSuffix(a.Name, "patch.fixOriginPtr") })
+			ok := allAtoms(origins(fs.Store.Val), func(a Atom) bool {
+				_, fv, okF := fieldRef(a.V)
+				return a.Kind == "field" && okF && fv == p.patchRoles().PFixOrigin
+			})
 			r.Check(ok, "C03.R5", "Guard.fixOriginPtr set in "+shortName(fs.Fn), p.Pos(posOf(fs.Store)), "copied from patch.fixOriginPtr", "guard's relocated-origin address does not come from the patch")
 		}
-		pf := structField(pt, "fixOriginPtr")
+		pf := p.patchRoles().PFixOrigin
 		for _, fs := range storesToField(p.Funcs, func(fv *types.Var, _ ssa.Value) bool { return fv == pf }) {
 			ok := allAtoms(origins(fs.Store.Val), func(a Atom) bool { return a.Kind == "call" && strings.HasSuffix(a.Name, "#0") })
 			r.Check(ok, "C03.R5", "patch.fixOriginPtr set in "+shortName(fs.Fn), p.Pos(posOf(fs.Store)), "result of the trampoline builder", "patch's relocated-origin address is not the trampoline builder's result")
